@@ -1,6 +1,6 @@
 /- GENERATED from the paramiko tree under test by pv/lib_runloop.py on every run of C09/C11/C12 -- do not edit.
-   Key sets of MSG_NAMES and of every dispatch table of Transport.run, every MSG_* constant, and how the
-   fallback branch of run() looks the debug name up. -/
+   Key sets of MSG_NAMES and of every dispatch table of Transport.run, every MSG_* constant, and whether every
+   MSG_NAMES lookup in packet.py/transport.py (run() fallback, read_message, send_message) is total. -/
 import PV.Model.RunLoop
 namespace PV.Generated.C12
 open PV.RunLoop
